@@ -6,10 +6,10 @@
 # Prints the check's verdict lines; exit code = the check's exit code (1 expected = detected).
 set -u
 NAME=$1; PROP=$2; TIER=${3:-quick}
-WT=/tmp/runseed-$NAME-$$
+WT=/tmp/runseed-$(echo $NAME | tr "/" "_")-$$
 rm -rf $WT; git -C /repo worktree prune
 git -C /repo worktree add -q --detach $WT HEAD || exit 2
-git -C $WT apply /verif/seeded/$NAME/patch.diff || { echo "patch does not apply"; exit 2; }
+git -C $WT apply ${SEED_DIR:-/verif/seeded}/$NAME/patch.diff || { echo "patch does not apply"; exit 2; }
 cp /repo/Cargo.lock $WT/Cargo.lock
 cd ${VERIF_ROOT:-/verif} && VERIF_REPO=$WT ./check $PROP --tier $TIER 2>&1 | tail -4; RC=${PIPESTATUS[0]}
 git -C /repo worktree remove --force $WT
